@@ -5,8 +5,8 @@ Oracle for the `suppa-script` suite: the multi-objective explorer model over a s
 installs the scripted candidate).  Small integer vectors make ties, equal vectors, dominated and
 duplicate candidates frequent, which real catchment runs rarely produce.
 
-  start-toy <product|averaged> <T> <coolingFactor> <minRate> <rtbFactor> <initialStep> <d> <n> <n*d weights> <curBits> <potBits>
-  iter <u> <pick> <k> <k diffs> <candidate bits as 0/1 draws…>
+  start-toy <product|averaged> <T> <coolingFactor> <minRate> <rtbFactor> <initialStep> <d> <n> <n*d weights> <curBits> <potBits> [cnd]
+  iter <u> <pick> <candidate bits as 0/1 draws…>      (output as in Driver.Suppa: the changes are computed, not given)
   cool
 -/
 namespace Driver.SuppaToy
@@ -18,6 +18,7 @@ def vecOf (W : List (List Int)) (d : Nat) (s : List Bool) : List Int :=
 
 def toyOps (W : List (List Int)) (d : Nat) : ModelOps (List Bool) where
   compress := fun s => ⟨vecOf W d s, s⟩
+  values := fun s => (vecOf W d s).map fun (x : Int) => (x : Rat)
   syncTo := fun _ bits => bits
   randomize := fun _ draws => draws.map (· = 1)
 
@@ -42,6 +43,9 @@ def chunk (d : Nat) (xs : List Int) : List (List Int) := if d = 0 then [] else c
 
 def step (st : St) (line : String) : St × String :=
   let ws := words line
+  let (ws, cnd) := match ws.getLast? with
+    | some "cnd" => (ws.dropLast, true)
+    | _ => (ws, false)
   match ws with
   | "start-toy" :: kind :: t :: cf :: minRate :: factor :: step0 :: d :: n :: rest =>
     match parseF t, parseF cf, minRate.toNat?, parseF factor, step0.toNat?, d.toNat?, n.toNat? with
@@ -54,28 +58,22 @@ def step (st : St) (line : String) : St × String :=
           let e : Ex Float (List Bool) :=
             { current := cb, potential := pb, archive := [], temperature := t,
               countdown := BitVec.ofNat 64 (floatArith.trunc s0.toFloat), step := s0.toFloat, iter := 1, lastReturned := 0 }
-          let P : Params Float := { kind := if kind = "averaged" then .averaged else .product, minRate := mr.toFloat, factor := f }
+          let P : Params Float := { kind := if kind = "averaged" then .averaged else .product, minRate := mr.toFloat, factor := f,
+                                    checkNonDominance := cnd }
           ({ W := W, d := d, ex := some e, P := P, coolFactor := cf }, s!"ok {exStr W d e}")
         | _, _ => (st, "bad-op")
       | _, _ => (st, "bad-op")
     | _, _, _, _, _, _, _ => (st, "bad-op")
-  | "iter" :: u :: pick :: k :: rest =>
-    match st.ex, parseF u, pick.toNat?, k.toNat? with
-    | some e, some u, some pick, some k =>
-      match (rest.take k).mapM parseF, (rest.drop k).mapM String.toNat? with
-      | some diffs, some draws =>
-        let (e', o) := iterate floatArith (toyOps st.W st.d) st.P e { draws := draws, diffs := diffs, u := u, pick := pick }
-        let near : Bool := match o.prob with
-          | some p => decide (Float.abs (p - u) < 1e-9 * (if p > u then p else u))
-          | none => false
-        if near then ({ st with ex := some e' }, "BOUNDARY") else
-        let ps := match o.prob with
-          | some p => s!"~b{hex16 p.toBits}"
-          | none => "-"
-        ({ st with ex := some e' },
-         s!"{resStr o.result} {boolStr o.desirable} {boolStr o.moved} {boolStr o.forced} {boolStr o.returned} {ps} {exStr st.W st.d e'}")
-      | _, _ => (st, "bad-op")
-    | _, _, _, _ => (st, "bad-op")
+  | "iter" :: u :: pick :: rest =>
+    match st.ex, parseF u, pick.toNat? with
+    | some e, some u, some pick =>
+      match rest.mapM String.toNat? with
+      | some draws =>
+        let (e', o) := iterate floatArith (toyOps st.W st.d) st.P e { draws := draws, u := u, pick := pick }
+        if nearDraw o u then ({ st with ex := some e' }, "BOUNDARY") else
+        ({ st with ex := some e' }, outStr o (exStr st.W st.d e'))
+      | _ => (st, "bad-op")
+    | _, _, _ => (st, "bad-op")
   | ["cool"] =>
     match st.ex with
     | some e =>
